@@ -3,6 +3,7 @@
 from __future__ import annotations
 
 import numpy as np
+import pyttb as ttb
 from hypothesis import strategies as st
 
 from .. import gen, ref
@@ -51,13 +52,36 @@ RULE = (
     "xtiny / xhuge (1e-200 / 1e+200): products and quotients underflow to zero / overflow; every entry is still one "
     "IEEE operation.  (several live objects) for one operator per case (each gets its turn over the cases) the result and the operands are "
     "edited in place in turn (S[subs] = v, T[...] = B) and all the others must stay exactly what they were "
-    "(<op>:<object>:changed-by:edit-of-<other>)."
+    "(<op>:<object>:changed-by:edit-of-<other>).  "
+    "Round 4: (presentation) cells */present - the same operands the way callers hand them over: subscript arrays in "
+    "int32 / int16 / int8 / uint8 / uint16 / uint32 / uint64, independently for the two operands (mixed dtypes), through "
+    "sptensor(subs, vals, shape), from_aggregator, the row / col / data arrays of a scipy.sparse.coo_matrix (int32), and "
+    "copy=False on Fortran-ordered / read-only / strided views; shapes as tuples of numpy int64 / int32 / uint8, lists, "
+    "integer arrays, a bare int; dense operands from C-ordered, strided (reversed axis), read-only arrays (copied or "
+    "referenced) and flat vectors; scalars as numpy int64 / int32 / int8 / uint8 / float32 (only next to values whose "
+    "promotion with float32 is float64) / bool_ and Python bool; one case in five also holds explicitly stored zeros; the "
+    "NumPy oracle is unchanged and x / y must also agree with the same request in the default presentation "
+    "(div:presentation-agrees).  One sparse operand in four of the enumerated cells and two in three of the large ones "
+    "also carry int32 / int16 / uint8 / uint32 subscripts (separate PRNG stream).  (environment) one */present case in "
+    "four runs with the root logger at DEBUG.  (rejected requests) cells */mismatch - operands of different shapes that "
+    "NumPy broadcasting would reconcile (extent 1 against n, one more / fewer singleton mode, all extents 1), permuted / "
+    "reshaped shapes with the same number of cells, one extent off by one: sptensor (op) sptensor|tensor must reject all "
+    "13 operators (<op>:shape-mismatch-rejected); afterwards both operands are bit for bit what they were "
+    "(<op>:operands-unchanged-after-rejected-mismatch) and a further valid request on each is judged against NumPy "
+    "(<op> after-rejected-<op>); tensor (op) sptensor is decided by the dense operators (NumPy broadcasting: accepted "
+    "when broadcastable - labelled, not judged) and must leave the operands unchanged either way."
 )
 ASSUMPTIONS = [
     "oracle: NumPy ufunc on the dense expansion of the operands; booleans compared as 0/1; -0.0 == 0.0; NaN == NaN",
     "each output entry is one IEEE operation on the two input entries, so exact equality is required for general floats too",
     "a sparse result may store explicit zeros (e.g. S*0); this is not asserted here (C06)",
-    "scalars are Python int / float (and numpy.float64, a float subclass); numpy integer scalars are not claimed",
+    "scalars are Python int / float (and numpy.float64, a float subclass) everywhere but in C03/scalar/present, which also "
+    "passes numpy int64 / int32 / int8 / uint8 / float32 / bool_ scalars and Python bool: the documented dense counterpart, "
+    "c (op) S and S * c accept them, so S (op) c is claimed too (open finding C03-K16)",
+    "a subscript array of any integer dtype that holds the subscripts is a valid argument of the sparse constructors "
+    "(uint64 included: open finding C03-K17); results are not required to keep or to change the subscript dtype",
+    "shape-mismatched requests are expected to be rejected only where sptensor.py itself decides (sparse left operand); "
+    "for a dense left operand acceptance by NumPy broadcasting is recorded, not judged (tensor.py has no shape check)",
     "enumeration values/orders come from random.Random(crc32(enumeration index)) — deterministic, not Hypothesis-driven",
     "integer dtypes are assigned only to operands whose values are integers of magnitude <= 10 (no int8 overflow in "
     "sums / products); with an unsigned operand an operator whose true result has a negative entry is outside the "
@@ -80,6 +104,37 @@ def _info(case):
         else f" c={case['c']!r}")
 
 
+def _plain(part):
+    """the same operand in the library's favourite presentation"""
+    return {k: v for k, v in part.items() if k not in ("subsdt", "ctor", "shapekind", "dpres")}
+
+
+def _agrees(ctx, name, case, R, fn0):
+    """presentation cells, operators whose NumPy oracle is partly excused by an open known finding (x / y): the same
+    request with both operands in the default presentation must give the same answer"""
+    if not case.get("present") or not name.startswith("div/") or R is None:
+        return
+    try:
+        with ctx.sut(f"{name} default-presentation"):
+            R0 = fn0()
+        got, want = ref.den(R), ref.den(R0)
+    except Abort:
+        return
+    except Exception:  # noqa: BLE001  (an ill-formed result: already reported by the wellformed clause)
+        return
+    ctx.check(ref.same_exact(got, want), f"{name}:presentation-agrees", f"{ref.diff_info(got, want)} {_info(case)}")
+
+
+def _with_env(body):
+    def run(ctx, case):
+        with H.environment(case.get("env") if isinstance(case, dict) else None):
+            body(ctx, case)
+
+    run.__name__ = body.__name__
+    return run
+
+
+@_with_env
 def _body_spsp(ctx, case):
     case = H.expand(case)
     skip_ops = H.big_not_run("sp-sp", case)
@@ -102,10 +157,13 @@ def _body_spsp(ctx, case):
         R = H.run_op(ctx, f"{name}/sp-sp", ts, lambda: H.SUT[name](S, S2), lambda: H.NP[name](A, B), info,
                      split=H.value_split(f"{name}/sp-sp", A, B, case), unsigned=uns)
         H.check_unchanged(ctx, f"{name}/sp-sp", (S, A), (S2, B))
+        _agrees(ctx, f"{name}/sp-sp", case, R,
+                lambda: H.SUT[name](H.sp_of(shape, _plain(case["a"])), H.sp_of(shape, _plain(case["b"]))))
         if H.alias_turn(case, H.BINARY.index(name)):
             H.check_alias(ctx, f"{name}/sp-sp", R, left=S, right=S2)
 
 
+@_with_env
 def _body_sptn(ctx, case):
     case = H.expand(case)
     skip_ops = H.big_not_run("sp-tn", case)
@@ -127,10 +185,13 @@ def _body_sptn(ctx, case):
         R = H.run_op(ctx, f"{name}/sp-tn", ts, lambda: H.SUT[name](S, T), lambda: H.NP[name](A, B), info,
                      split=H.value_split(f"{name}/sp-tn", A, B, case), unsigned=uns)
         H.check_unchanged(ctx, f"{name}/sp-tn", (S, A), (T, B))
+        _agrees(ctx, f"{name}/sp-tn", case, R,
+                lambda: H.SUT[name](H.sp_of(shape, _plain(case["a"])), H.tn_of(shape, _plain(case["b"]))))
         if H.alias_turn(case, H.BINARY.index(name)):
             H.check_alias(ctx, f"{name}/sp-tn", R, left=S, right=T)
 
 
+@_with_env
 def _body_tnsp(ctx, case):
     case = H.expand(case)
     skip_ops = H.big_not_run("tn-sp", case)
@@ -153,6 +214,7 @@ def _body_tnsp(ctx, case):
             H.check_alias(ctx, f"{name}/tn-sp", R, left=T, right=S)
 
 
+@_with_env
 def _body_scalar(ctx, case):
     case = H.expand(case)
     shape = case["shape"]
@@ -434,6 +496,7 @@ def _big_labels(ctx, case):
     na = len(full["a"]["subs"])
     ctx.label("big-shape-" + "x".join(str(v) for v in full["shape"]),
               "allsubs-comparisons-" + (">2^22" if na * n * nd > 2**22 else "<=2^22"))
+    ctx.label(*[f"{k}-subs-" + full[k].get("subsdt", "int64") for k in ("a", "b") if k in full])
     if "b" in full:
         ctx.label("pair-comparisons-" + (">2^22" if na * len(full["b"]["subs"]) * nd > 2**22 else "<=2^22"))
 
@@ -653,6 +716,281 @@ def scalar_state(ctx, case):
 
 
 # --------------------------------------------------------------------------
+# round 4, class 11: how the caller presents valid operands.  The same tensors, handed over the way ordinary callers
+# do: subscript arrays in int32 / int16 / int8 / uint8 / uint16 / uint32 / uint64 (independently for the two operands, so
+# the dtypes are mixed), through sptensor(subs, vals, shape), from_aggregator, a scipy.sparse.coo_matrix's row / col / data
+# arrays, copy=False on Fortran-ordered / read-only / strided views; shapes as numpy integers, lists, integer arrays, a
+# bare int; dense operands from C-ordered, strided (reversed axis), read-only arrays and flat vectors; scalars as numpy
+# scalars (int64 / int32 / int8 / uint8 / float32 / bool_) and Python bool.  Class 13: one case in four runs with the root
+# logger at DEBUG.  Oracle: unchanged (NumPy on the expanded arrays) - every presentation denotes the same array - plus,
+# for x / y, agreement with the same request in the default presentation.
+# --------------------------------------------------------------------------
+
+_SUBSDT = [None, "int32", "int32", "int32", "int16", "int8", "uint8", "uint16", "uint32", "uint64"]
+_SHAPEKINDS = [None, None, None, "npint", "npint32", "npuint8", "list", "array", "array32", "bare-int"]
+_ENVS = [None, None, None, "debug-logging"]
+
+
+def _present_sparse(draw, shape, part):
+    sd = draw(st.sampled_from(_SUBSDT))
+    if sd is not None and max(shape) - 1 <= np.iinfo(sd).max:
+        part["subsdt"] = sd
+    ctors = ["plain", "plain", "plain", "agg", "nocopy-F", "nocopy-readonly", "nocopy-strided"]
+    if len(shape) == 2:
+        ctors += ["coo"] * 5
+    ctor = draw(st.sampled_from(ctors))
+    if ctor != "plain":
+        part["ctor"] = ctor
+    if ctor == "coo":
+        part.pop("subsdt", None)  # (scipy keeps its own index dtype: int32)
+    if ctor == "agg":  # from_aggregator stores the entries in lexicographic order: the case says so
+        order = sorted(range(len(part["subs"])), key=lambda i: part["subs"][i])
+        part["subs"], part["vals"] = [part["subs"][i] for i in order], [part["vals"][i] for i in order]
+    sk = draw(st.sampled_from(_SHAPEKINDS))
+    if sk is not None and not (sk == "bare-int" and len(shape) != 1):
+        part["shapekind"] = sk
+    return part
+
+
+def _present_dense(draw, shape, part):
+    pres = draw(st.sampled_from([None] + list(H.DENSE_PRES) + ["strided", "readonly-nocopy"]))
+    if pres is not None:
+        part["dpres"] = pres
+    sk = draw(st.sampled_from(_SHAPEKINDS))
+    if sk is not None and not (sk == "bare-int" and len(shape) != 1):
+        part["shapekind"] = sk
+    return part
+
+
+@st.composite
+def _pair_present(draw, tier, b_sparse):
+    c = draw(_pair_sampled(tier, permute_b=b_sparse, any_shape=True))
+    _present_sparse(draw, c["shape"], c["a"])
+    (_present_sparse if b_sparse else _present_dense)(draw, c["shape"], c["b"])
+    # one case in five: a sparse operand also holds explicitly stored zeros (derived state met in a narrow subscript dtype)
+    for k in ("a", "b") if b_sparse else ("a",):
+        if c[k].get("ctor") != "agg" and draw(st.integers(0, 4)) == 0:
+            _derive_sparse(draw, c["shape"], c[k], force=True)
+    c["present"] = True
+    env = draw(st.sampled_from(_ENVS))
+    if env:
+        c["env"] = env
+    return c
+
+
+_CKINDS = ["npfloat32", "npint64", "npint32", "npint8", "npuint8", "npfloat32", "npint64", "npbool", "pybool",
+           "int", "float"]
+
+
+@st.composite
+def _scalar_present(draw, tier):
+    c = draw(_scalar_sampled(tier, any_shape=True))
+    _present_sparse(draw, c["shape"], c["a"])
+    small = H.part_dtype(c["a"]) in ("int8", "uint8")
+    ck, v = draw(st.sampled_from(_CKINDS)), float(c["c"])
+    if ck in ("npbool", "pybool"):
+        v = float(draw(st.booleans()))
+    elif ck in ("npint64", "npint32", "npint8", "npuint8", "int"):
+        # an integer the scalar type and every result hold: |c| <= 1000, <= 10 next to 8-bit values / as an 8-bit scalar
+        lim = 10.0 if (small or ck in ("npint8", "npuint8")) else 1000.0
+        r = float(round(v)) if abs(v) < 1e6 else lim
+        v = max(-lim, min(lim, r if (r != 0 or v == 0) else (1.0 if v > 0 else -1.0)))
+        if ck == "npuint8":
+            v = abs(v)
+    elif ck == "npfloat32":
+        # only what stays exact: a scalar float32 holds, next to values whose NumPy promotion with float32 is float64
+        with np.errstate(all="ignore"):
+            v32 = float(np.float32(v))
+        if small or not np.isfinite(v32) or (v32 == 0.0) != (v == 0.0):
+            ck = "float"
+        else:
+            v = v32
+    c["c"], c["ckind"], c["present"] = v, ck, True
+    env = draw(st.sampled_from(_ENVS))
+    if env:
+        c["env"] = env
+    return c
+
+
+def _present_labels(ctx, case, b_dense=False):
+    def sdt(p):
+        return "coo-int32" if p.get("ctor") == "coo" else p.get("subsdt", "int64")
+
+    for k in ("a", "b"):
+        p = case.get(k)
+        if p is None:
+            continue
+        if k == "b" and b_dense:
+            ctx.label("b-dense-" + p.get("dpres", "F"))
+        else:
+            ctx.label(f"{k}-subs-" + sdt(p), f"{k}-ctor-" + p.get("ctor", "plain"))
+            if p.get("zsubs"):
+                ctx.label(f"{k}-explicit-zeros")
+        ctx.label(f"{k}-shape-as-" + str(p.get("shapekind", "tuple")))
+    if "b" in case and not b_dense:
+        ctx.label("subs-dtypes-" + ("mixed" if sdt(case["a"]) != sdt(case["b"]) else "same"))
+    ctx.label("env-" + str(case.get("env", "default")))
+
+
+@cell("C03/sp-sp/present", strategy=lambda tier: _pair_present(tier, True), quick=160, thorough=3000, shards=(2, 8))
+def spsp_present(ctx, case):
+    _present_labels(ctx, case)
+    _body_spsp(ctx, case)
+
+
+@cell("C03/sp-tn/present", strategy=lambda tier: _pair_present(tier, False), quick=160, thorough=2400, shards=(2, 8))
+def sptn_present(ctx, case):
+    _present_labels(ctx, case, b_dense=True)
+    _body_sptn(ctx, case)
+
+
+@cell("C03/tn-sp/present", strategy=lambda tier: _pair_present(tier, False), quick=120, thorough=1600, shards=(2, 8))
+def tnsp_present(ctx, case):
+    _present_labels(ctx, case, b_dense=True)
+    _body_tnsp(ctx, case)
+
+
+@cell("C03/scalar/present", strategy=_scalar_present, quick=150, thorough=3000, shards=(2, 8))
+def scalar_present(ctx, case):
+    _present_labels(ctx, case)
+    _body_scalar(ctx, case)
+
+
+# --------------------------------------------------------------------------
+# round 4, classes 12 / 14: requests with operands of different shapes.  sptensor (op) sptensor and sptensor (op) tensor
+# reject them (every operator asserts equal shapes); the mismatch is generated so that NumPy broadcasting would hide it
+# (an extent of 1 against n, all other extents equal or 1; one more / one fewer singleton mode; every extent 1), and as
+# a permuted / reshaped shape with the same number of cells, or one extent off by one.  After the rejected request both
+# operands must be exactly what they were (shape, subscripts, values, dtypes bit for bit), and a further valid request
+# on each of them is judged against NumPy as if the rejected one had not happened.  tensor (op) sptensor is handled by
+# the dense operators, which leave the decision to NumPy broadcasting: accepted or rejected, the operands must be unchanged.
+# --------------------------------------------------------------------------
+
+_MISMATCH = ["extent-1", "extent-1", "extent-1", "all-ones", "more-modes-1", "fewer-modes-1", "permuted", "reshaped",
+             "off-by-one"]
+
+
+def _other_shape(draw, shape, how):
+    """a shape that differs from `shape`; None when this kind does not apply"""
+    shape = list(shape)
+    n = len(shape)
+    big = [k for k in range(n) if shape[k] > 1]
+    if how == "extent-1" and big:
+        out = list(shape)
+        for k in draw(st.lists(st.sampled_from(big), min_size=1, max_size=len(big), unique=True)):
+            out[k] = 1
+        return out
+    if how == "all-ones":
+        m = draw(st.integers(1, 4))
+        return [1] * m if [1] * m != shape else [1] * (m + 1)
+    if how == "more-modes-1":
+        return shape + [1] if draw(st.booleans()) else [1] + shape
+    if how == "fewer-modes-1" and n > 1 and 1 in shape:
+        k = shape.index(1)
+        return shape[:k] + shape[k + 1:]
+    if how == "permuted" and shape[::-1] != shape:
+        return shape[::-1]
+    if how == "reshaped" and n > 1:
+        return [ref.prod(shape)] if draw(st.booleans()) else [shape[0] * shape[1]] + shape[2:]
+    if how == "off-by-one":
+        k = draw(st.integers(0, n - 1))
+        out = list(shape)
+        out[k] += 1
+        return out
+    return None
+
+
+@st.composite
+def _operand_on(draw, shape):
+    n = ref.prod(shape)
+    subsF = ref.all_subs_F(shape)
+    mask = draw(_mask(n, draw(st.sampled_from(["none", "one", "some", "some", "allbut1", "all"]))))
+    k = sum(mask)
+    vals = iter(draw(st.lists(draw(st.sampled_from([_INT_VALUES, _SET_VALUES, _HALF_VALUES])), min_size=k, max_size=k)))
+    part = _store(draw, [(subsF[i], next(vals)) for i in range(n) if mask[i]])
+    return _draw_dtype(draw, part)
+
+
+@st.composite
+def _mismatch_case(draw, tier):
+    c = draw(_pair_sampled(tier, permute_b=True, any_shape=True))
+    shape = c["shape"]
+    how = draw(st.sampled_from(_MISMATCH))
+    other = _other_shape(draw, shape, how)
+    if other is None:
+        how = "more-modes-1"
+        other = _other_shape(draw, shape, how)
+    b = draw(_operand_on(other))
+    # which operand carries the altered shape
+    if draw(st.booleans()):
+        return dict(sa=list(shape), sb=list(other), a=c["a"], b=b, how=how, altered="right")
+    return dict(sa=list(other), sb=list(shape), a=b, b=c["a"], how=how, altered="left")
+
+
+def _follow_up(ctx, kind, name, X, XA, i):
+    """a valid request on an operand of the rejected one, judged as if the rejected one had not happened"""
+    f = H.BINARY[(i + 1) % len(H.BINARY)]
+    if isinstance(X, ttb.sptensor):
+        H.run_op(ctx, f"{f}/sp-sc after-rejected-{name}/{kind}", "", lambda: H.SUT[f](X, 2.0),
+                 lambda: H.NP[f](XA, 2.0), unsigned=X.vals.dtype.kind == "u")
+    else:
+        got = np.asarray(X.data, dtype=float)
+        ctx.check(got.shape == XA.shape and ref.same_exact(got, XA), f"dense-operand after-rejected-{name}/{kind}:values")
+
+
+def _body_mismatch(ctx, case, kind):
+    sa, sb, how = case["sa"], case["sb"], case["how"]
+    A, B = H.dense_of(sa, case["a"]), H.dense_of(sb, case["b"])
+    try:
+        np.broadcast_shapes(tuple(sa), tuple(sb))
+        bc = "broadcastable"
+    except ValueError:
+        bc = "not-broadcastable"
+    ctx.label(how, bc, "altered-" + case["altered"], f"a{H._n(len(case['a']['subs']))}b{H._n(len(case['b']['subs']))}")
+    ctx.nt = len(case["a"]["subs"]) > 0 and len(case["b"]["subs"]) > 0
+    info = f"shapes {sa} {sb} a={case['a']} b={case['b']}"
+    for i, name in enumerate(H.BINARY):
+        with ctx.sut("construct"):
+            X = H.tn_of(sa, case["a"]) if kind == "tn-sp" else H.sp_of(sa, case["a"])
+            Y = H.tn_of(sb, case["b"]) if kind == "sp-tn" else H.sp_of(sb, case["b"])
+        before = (H.exact_state(X), H.exact_state(Y))
+        outcome = "rejected"
+        try:
+            with np.errstate(all="ignore"):
+                H.SUT[name](X, Y)
+            outcome = "accepted"
+        except Exception:  # noqa: BLE001
+            pass
+        if kind != "tn-sp":
+            ctx.check(outcome == "rejected", f"{name}/{kind}:shape-mismatch-rejected [{how},{bc}]", info)
+        else:
+            ctx.label(f"dense-left-{bc}-{outcome}")
+        try:
+            after = (H.exact_state(X), H.exact_state(Y))
+        except Exception:  # noqa: BLE001
+            after = None
+        ctx.check(after == before, f"{name}/{kind}:operands-unchanged-after-{outcome}-mismatch", info)
+        if i % 3 == (len(case["a"]["subs"]) + len(case["b"]["subs"])) % 3:
+            _follow_up(ctx, kind, name, X, A, i)
+            _follow_up(ctx, kind, name, Y, B, i + 5)
+
+
+@cell("C03/sp-sp/mismatch", strategy=_mismatch_case, quick=120, thorough=2000, shards=(2, 8))
+def spsp_mismatch(ctx, case):
+    _body_mismatch(ctx, case, "sp-sp")
+
+
+@cell("C03/sp-tn/mismatch", strategy=_mismatch_case, quick=100, thorough=1600, shards=(2, 8))
+def sptn_mismatch(ctx, case):
+    _body_mismatch(ctx, case, "sp-tn")
+
+
+@cell("C03/tn-sp/mismatch", strategy=_mismatch_case, quick=80, thorough=1200, shards=(2, 8))
+def tnsp_mismatch(ctx, case):
+    _body_mismatch(ctx, case, "tn-sp")
+
+
+# --------------------------------------------------------------------------
 # predicates for known_findings/C03.json (pure functions of the case)
 # --------------------------------------------------------------------------
 
@@ -698,6 +1036,11 @@ _PREDICATES = {
     "sparse_empty_scalar_zero": lambda c: _na(c) == 0 and float(c["c"]) == 0,
     # value dtypes
     "right_unsigned": lambda c: "b" in c and H.dtype_kind(c["b"]) == "u",
+    # presentation (round 4)
+    "numpy_scalar_right": lambda c: c.get("ckind") in ("npint64", "npint32", "npint8", "npuint8", "npfloat32", "npbool"),
+    "numpy_bool_scalar_right": lambda c: c.get("ckind") == "npbool",
+    "uint64_subs_operand": lambda c: any(c[k].get("subsdt") == "uint64" and c[k].get("ctor") != "coo"
+                                         for k in ("a", "b") if k in c),
     # derived states
     "explicit_zero_operand": lambda c: H.explicit_zero_mask(c) is not None,
 }
